@@ -162,3 +162,78 @@ def replay(args):  # noqa: F811
             print(p[0][:1500])
         return bool(p)
     return _replay_calls(args)
+
+
+# ------------------------------------------------------------------------- C10: selectors end to end (concrete, rdflib evaluates the generated queries)
+
+SEL_DOC = "\n".join([
+    '<http://ex.org/a> <http://www.w3.org/1999/02/22-rdf-syntax-ns#type> <http://ex.org/C> .',
+    '<http://ex.org/a> <http://ex.org/p> <http://ex.org/b> .',
+    '<http://ex.org/b> <http://www.w3.org/1999/02/22-rdf-syntax-ns#type> <http://ex.org/D> .',
+    '<http://ex.org/b> <http://ex.org/p> <http://ex.org/c> .',
+    '<http://ex.org/c> <http://ex.org/q> "x" .',
+    '<http://ex.org/d> <http://www.w3.org/1999/02/22-rdf-syntax-ns#type> <http://ex.org/C> .',
+    '<http://ex.org/d> <http://ex.org/isa> <http://ex.org/D> .',
+]) + "\n"
+SEL_TRIPLES = [("a", "type", "C"), ("a", "p", "b"), ("b", "type", "D"), ("b", "p", "c"), ("d", "type", "C"), ("d", "isa", "D")]
+SELECTORS = [
+    ("<http://ex.org/a>", {"a"}), ("ex:b", {"b"}),
+    ("{FOCUS a ex:C}", {"a", "d"}), ("{FOCUS a _}", {"a", "b", "d"}), ("{FOCUS ex:p _}", {"a", "b"}), ("{FOCUS <http://ex.org/p> ex:c}", {"b"}),
+    ("{_ ex:p FOCUS}", {"b", "c"}), ("{ex:a ex:p FOCUS}", {"b"}), ("{_ a FOCUS}", {"C", "D"}),
+    ("SPARQL 'SELECT ?s WHERE { ?s <http://ex.org/p> ?o . }'", {"a", "b"}),
+]
+
+
+def selector_problems(fmt):
+    import json as _json
+    from shexer.shaper import Shaper
+    from shexer.consts import JSON, FIXED_SHAPE_MAP
+    problems = []
+    for i, (sel, nodes) in enumerate(SELECTORS):
+        for label_text, label_iri in (("<http://sh.org/S%d>" % i, "http://sh.org/S%d" % i), ("sx:S%d" % i, "http://sh.org/S%d" % i)):
+            if fmt == "json":
+                sm = _json.dumps([{"nodeSelector": sel, "shapeLabel": label_text}])
+            else:
+                sm = sel + "@" + label_text
+            try:
+                out = Shaper(raw_graph=SEL_DOC, shape_map_raw=sm, shape_map_format=JSON if fmt == "json" else FIXED_SHAPE_MAP,
+                             namespaces_dict={"http://ex.org/": "ex", "http://sh.org/": "sx"}, instances_report_mode="abs").shex_graph(string_output=True)
+            except Exception as e:  # noqa
+                problems.append("selector %r (%s) raised %s: %s" % (sel, fmt, type(e).__name__, e))
+                continue
+            # C10 is about the node set behind the shape; how the label is spelled in the output is not judged here
+            want_header = ":S%d   # %d instance%s." % (i, len(nodes), "" if len(nodes) == 1 else "s")
+            if want_header not in out or out.count(" instance") < 1:
+                problems.append("selector %r with label %r (%s): expected header %r in\n%s" % (sel, label_text, fmt, want_header, out))
+    return problems
+
+
+def instantiation_property_problems():
+    """custom instantiation property: rdf:type is an ordinary property; class membership follows the custom property."""
+    from shexer.shaper import Shaper
+    out = Shaper(raw_graph=SEL_DOC, target_classes=["http://ex.org/D"], instantiation_property="http://ex.org/isa",
+                 namespaces_dict={"http://ex.org/": "ex", "http://www.w3.org/1999/02/22-rdf-syntax-ns#": "rdf"}, instances_report_mode="abs").shex_graph(string_output=True)
+    problems = []
+    if ":D   # 1 instance." not in out:
+        problems.append("with instantiation_property=ex:isa the class D must have exactly the instance d:\n" + out)
+    if "rdf:type  IRI" not in out:
+        problems.append("with a custom instantiation property rdf:type must be an ordinary IRI-valued property:\n" + out)
+    return problems
+
+
+def _history_more(name):
+    if name == "selectors-fsm":
+        return selector_problems("fsm")
+    if name == "selectors-json":
+        return selector_problems("json")
+    if name == "custom-instantiation-property":
+        return instantiation_property_problems()
+    return None
+
+
+_history_base = history_problems
+
+
+def history_problems(name):  # noqa: F811
+    r = _history_more(name)
+    return r if r is not None else _history_base(name)
